@@ -29,7 +29,10 @@ OPTS = ["", " NOT NULL", " DEFAULT 1", " COMMENT 'c'", " NOT NULL DEFAULT 1", " 
 CTX = ["", "SELECT a FROM t0 WHERE a > 5;\n", "SELECT a FROM t0 WHERE a < 5;\n", "CREATE TABLE p (m MAP<STRING,ARRAY<INT>>, n int);\n",
        "CREATE TABLE p (k int CHECK (k > 0), n int);\n", "CREATE TABLE p (k int, n int);\nALTER TABLE p ADD CONSTRAINT ck CHECK (k < 9);\n",
        # unsupported statements with a bare CHECK (no parenthesised clause), and a comment line holding a lone apostrophe
-       "ALTER TABLE p0 CHECK CONSTRAINT fk;\n", "CREATE VIEW v AS SELECT 1 WITH CHECK OPTION;\n", "-- the customer's balance\n"]
+       "ALTER TABLE p0 CHECK CONSTRAINT fk;\n", "CREATE VIEW v AS SELECT 1 WITH CHECK OPTION;\n", "-- the customer's balance\n",
+       # wave 8: more bare-CHECK statements (SSMS, MySQL) and statements the lexer rejects half-way
+       "ALTER TABLE p0 WITH CHECK CHECK CONSTRAINT fk;\n", "ALTER TABLE p0 DROP CHECK c;\n", "CREATE VIEW v AS SELECT a FROM s WHERE (b ^ 2) > 100;\n",
+       "ALTER TABLE ONLY p0 ADD CONSTRAINT c CHECK (((k ^ 2.0) < 100.0));\n", "CREATE TABLE p1 (k int, m MAP<STRING, INT ^>);\n"]
 PAIR = [("decimal(10,2)", "decimal", [10, 2]), ("varchar(5)[]", "varchar[]", 5), ("MAP<STRING,INT>", "MAP<STRING,INT>", None),
         ("ARRAY<STRUCT<a:INT,b:STRING>>", "ARRAY<STRUCT<a:INT,b:STRING>>", None), ("STRUCT<a:ARRAY<INT>,b:STRING>", "STRUCT<a:ARRAY<INT>,b:STRING>", None),
         ("number(*,2)", "number", ["*", 2])]
